@@ -1,13 +1,14 @@
 """C05 — keyword-only calling discipline: generated programs (real module files) with @pedantic / @pedantic_class /
 @require_kwargs callables of every kind, called with k >= 1 leading declared parameters moved into positional position."""
 import _call_common as C
+import _call_reentrant as R
 
 RULE = ('generated programs: plain functions, methods decorated directly or through @pedantic_class, static / class methods reached through the '
         'class and through an instance, @staticmethod @pedantic, operator methods (listed and unlisted dunders), @require_kwargs functions and '
         'methods, a pass-through decorator above or below, pedantic imported under an alias, names plain / __x / x__ / _x, needles (*args, '
         '@staticmethod, @name.setter, @pedantic, an e-mail address, **kwargs) in a comment / docstring / string literal, 0-3 parameters with and '
         'without defaults, *args / **kwargs / keyword-only parameters, sync and async; every callable is called keyword-only and with 1, 2 or all '
-        'declared parameters positional, all-conforming and with one wrong value. non-trivial = the call has a positional argument')
+        'declared parameters positional, all-conforming and with one wrong value; overlapping calls: the call under test is made from the body of a running call of the same or a sibling callable (recursion, the same method of another instance). non-trivial = the call has a positional argument')
 EXHAUSTIVE = {'quick': False, 'thorough': False}
 ASSUMPTIONS = ['programs are real files (inspect.getsource works)', 'the description of each callable sent to the model is read with the same stdlib introspection the library uses (inspect.signature, getfullargspec, getsource, ismethod)']
 TRUSTED = ['CPython inspect / functools.wraps semantics']
@@ -20,14 +21,16 @@ def cases(rng, tier):
     out += C.build_cases(rng, n // 2, calls_per=2, style=None, tag='c05b')
     out += C.build_cases(rng, n // 3, calls_per=2, style='posall', tag='c05c')
     out += C.scenario_cases(rng, n // 6, tag='c05sc') + C.scenario_cases(rng, n // 6, style='pos1', tag='c05sd')
+    # the call under test is made while another call of the same / a sibling callable is still running (recursion, re-entrancy)
+    out += R.reentrant_cases(rng, n // 4, style='pos1', tag='c05re') + R.reentrant_cases(rng, n // 8, tag='c05rf')
     return out
 
 
 def search(rng, tier, near):
-    return C.build_cases(rng, 800, calls_per=3, style='pos1', tag='c05s')
+    return C.build_cases(rng, 800, calls_per=3, style='pos1', tag='c05s') + R.reentrant_cases(rng, 400, style='pos1', tag='c05sr')
 
 
-run_impl = C.run_impl_calls
+run_impl = R.run_impl
 
 
 def judge(case, impl, model):
